@@ -2,6 +2,7 @@ import TD.C20.Lemmas
 import TD.C20.LemDat
 import TD.C20.LemEnc
 import TD.C20.LemLis
+import TD.C20.LemLisDeep
 
 /-!
 # C20 — file type identification recognises every supported format and never crashes
@@ -222,12 +223,6 @@ example : LisHead [0, 0, 0, 0, 0, 0, 0, 0, 144, 0, 0, 0, 0, 132, 0, 0, 132, 0, 8
   ⟨by decide, by decide, by decide, by decide, by decide, ⟨16, by decide, by decide⟩⟩
 
 
-/-- what `_lis` must answer for a layout: `LIS`, `LISt` (TIF markers), `LIStr` (reversed TIF markers) -/
-def lisCodeOf : TD.C05.TifMode → LisRes
-  | .off => .lis
-  | .le => .list
-  | .be => .listr
-
 /-- **LIS — every file of the C05 encoder that begins with a reel/tape/file header** (`TD.C05.encode`, proved to be what
 `File.FileWrite` writes: `TD.C05.writer_layout`).  For every valid layout — any trailer options, TIF off / normal /
 reversed, any maximum physical record length (without TIF markers: one that leaves at least 13 payload bytes in the
@@ -255,6 +250,107 @@ theorem lis_encoded_not_shadowed (lisT : Bytes → LisRes) (datP : Bytes → Boo
     identify lisT datP (TD.C05.encode L (r0 :: rs)) = (lisT (TD.C05.encode L (r0 :: rs))).code := by
   obtain ⟨h1, h2, h3, h4, h5, h6⟩ := lisHead_encode L hL r0 rs hhdr hmp
   exact lis_family_identified_partial lisT datP _ ⟨h1, h2, h3, h4, h5, h6⟩
+
+/-- a header record is `type :: attribute :: payload`, its first physical record is short: the reversed-TIF exclusion of
+C05 (first `next` word 0x100 / 0x10000) cannot occur -/
+theorem lisHeader_shape (L : TD.C05.Layout) (r0 : Bytes) (rs : List Bytes) (h : LisHeaderRec r0) :
+    (∃ t a payload, r0 = t :: a :: payload ∧ (t = 128 ∨ t = 130 ∨ t = 132)) ∧
+    (TD.C05.firstNext L (r0 :: rs) ≠ 0x100 ∧ TD.C05.firstNext L (r0 :: rs) ≠ 0x10000) := by
+  have hlen : 58 ≤ r0.length ∧ r0.length ≤ 128 := by rcases h.len with e | e <;> omega
+  constructor
+  · rcases r0 with _ | ⟨t, _ | ⟨a, payload⟩⟩
+    · simp at hlen
+    · simp at hlen
+    · exact ⟨t, a, payload, rfl, by simpa using h.typ⟩
+  · have hprt : L.prtLen ≤ 6 := by unfold TD.C05.Layout.prtLen; split <;> split <;> split <;> omega
+    have hcl : (r0.take L.maxPayload).length ≤ 128 := by rw [List.length_take]; omega
+    have e : TD.C05.firstNext L (r0 :: rs) = 12 + (4 + (r0.take L.maxPayload).length + L.prtLen) := rfl
+    rw [e]
+    constructor <;> omega
+
+/-- **LIS — the deep test proved** for files of the C05 encoder (`TD.C05.encode`, = what `File.FileWrite` writes) that begin
+with a reel/tape/file header, with `lisTest` the concrete `_lis` (pad-option scan with `pr_limit = 100` →
+`FileRead(keepGoing=True, best pad option)` → `FileIndex` non-empty → code by the TIF state; `LisTest.lean`).
+For every valid layout (trailer options, TIF off / normal / reversed, maximum PR length; without TIF at least 13 payload
+bytes in the first PR), every header record `r0` and all further non-empty records `rs`:
+the file is identified as `LIS` / `LISt` / `LIStr` according to its TIF mode, whatever the DAT trial parse says.
+Residual hypotheses, each necessary as far as the models reach:
+* `hn`  the file has at least `pr_limit` = 100 physical records — then no pad option can count more than 100 and
+        (0, False) is first among the tied options (`TD.C05.pad_reader_refines`); for shorter files see
+        `lis_identified_short`, which needs the scan condition of `pad_reader_refines_cond` (the pad scan is a
+        heuristic: on a short file a payload that looks like physical records after a mis-consumed pad byte can make
+        another option count more);
+* `hidx` building the index over the records does not raise (`TD.C06.fileIndex … = .ok es`): record contents decide this
+        (a type-64 record must be a parseable DFSR, a table record must start with a component block, …) — `_lis` answers
+        `''` when `FileIndex` raises; non-emptiness of the index then FOLLOWS from the header record
+        (`TD.C06.index_lists_all`);
+* `hsz` the file is shorter than 2^32 − 24 bytes (TIF words).
+Modelling assumption (not a hypothesis): `lisTest` obtains the records from the reader by `readLrBytes(-1); tellLr()`;
+`FileIndex` uses other reads of the same records — equal on these files by `read_refines` (every history). -/
+theorem lis_identified (datP : Bytes → Bool) (L : TD.C05.Layout) (hL : L.Valid)
+    (r0 : Bytes) (rs : List Bytes) (hhdr : LisHeaderRec r0) (hmp : L.tif = .off → 13 ≤ L.maxPayload)
+    (hr : ∀ r ∈ rs, r ≠ []) (hsz : TD.C05.fileSize L (r0 :: rs) + 24 < 4294967296)
+    (hn : lisPrLimit ≤ TD.C05.numPRs L (r0 :: rs))
+    (es : List TD.C06.Entry) (hidx : TD.C06.fileIndex (posRecs L (r0 :: rs) 0 (r0 :: rs).length) = .ok es) :
+    identify lisTest datP (TD.C05.encode L (r0 :: rs)) = (lisCodeOf L.tif).code := by
+  obtain ⟨⟨t, a, payload, hr0, ht⟩, hfn⟩ := lisHeader_shape L r0 rs hhdr
+  have hr' : ∀ r ∈ r0 :: rs, r ≠ [] := by
+    intro r hm
+    rcases List.mem_cons.mp hm with e | e
+    · rw [e, hr0]; simp
+    · exact hr r e
+  obtain ⟨_, cfg, hcfg, hrun⟩ := TD.C05.pad_reader_refines L (r0 :: rs) (absOps ((TD.C05.encode L (r0 :: rs)).length + 1)) lisPrLimit
+    hL hr' (fun _ => by simp) (fun _ => hfn) hsz (absOps_histOK _ _) (by decide) hn
+  have hes : es ≠ [] := by
+    have hp : posRecs L (r0 :: rs) 0 (r0 :: rs).length =
+        (TD.C05.tellOf L (r0 :: rs) 0, t :: a :: payload) :: posRecs L (r0 :: rs) 1 rs.length := by
+      simp [posRecs, TD.C05.recAt, hr0]
+    rw [hp] at hidx
+    exact fileIndex_nonempty _ t a payload _ es ht hidx
+  have hdeep := lisTest_encode L (r0 :: rs) hL hr' (by simp) (fun _ => hfn) ⟨cfg, hcfg, hrun⟩ es hidx hes
+  exact lis_identified_c05 lisTest datP L hL r0 rs hhdr hmp hdeep
+
+/-- the same for files with fewer than 100 physical records, under the scan condition of
+`TD.C05.pad_reader_refines_cond`: no pad option makes the scan count more records than the file has -/
+theorem lis_identified_short (datP : Bytes → Bool) (L : TD.C05.Layout) (hL : L.Valid)
+    (r0 : Bytes) (rs : List Bytes) (hhdr : LisHeaderRec r0) (hmp : L.tif = .off → 13 ≤ L.maxPayload)
+    (hr : ∀ r ∈ rs, r ≠ []) (hsz : TD.C05.fileSize L (r0 :: rs) + 24 < 4294967296)
+    (hle : ∀ o ∈ TD.C05.padOptions, TD.C05.scanFile ⟨true, o.1, o.2⟩ (TD.C05.encode L (r0 :: rs)) lisPrLimit
+        ≤ (if lisPrLimit = 0 then TD.C05.numPRs L (r0 :: rs) else min lisPrLimit (TD.C05.numPRs L (r0 :: rs))))
+    (es : List TD.C06.Entry) (hidx : TD.C06.fileIndex (posRecs L (r0 :: rs) 0 (r0 :: rs).length) = .ok es) :
+    identify lisTest datP (TD.C05.encode L (r0 :: rs)) = (lisCodeOf L.tif).code := by
+  obtain ⟨⟨t, a, payload, hr0, ht⟩, hfn⟩ := lisHeader_shape L r0 rs hhdr
+  have hr' : ∀ r ∈ r0 :: rs, r ≠ [] := by
+    intro r hm
+    rcases List.mem_cons.mp hm with e | e
+    · rw [e, hr0]; simp
+    · exact hr r e
+  obtain ⟨_, cfg, hcfg, hrun⟩ := TD.C05.pad_reader_refines_cond L (r0 :: rs) (absOps ((TD.C05.encode L (r0 :: rs)).length + 1)) lisPrLimit
+    hL hr' (by simp) (fun _ => hfn) hsz (absOps_histOK _ _) hle
+  have hes : es ≠ [] := by
+    have hp : posRecs L (r0 :: rs) 0 (r0 :: rs).length =
+        (TD.C05.tellOf L (r0 :: rs) 0, t :: a :: payload) :: posRecs L (r0 :: rs) 1 rs.length := by
+      simp [posRecs, TD.C05.recAt, hr0]
+    rw [hp] at hidx
+    exact fileIndex_nonempty _ t a payload _ es ht hidx
+  have hdeep := lisTest_encode L (r0 :: rs) hL hr' (by simp) (fun _ => hfn) ⟨cfg, hcfg, hrun⟩ es hidx hes
+  exact lis_identified_c05 lisTest datP L hL r0 rs hhdr hmp hdeep
+
+/-! the hypotheses of `lis_identified_short` are satisfiable: a TIF-marked file header + one comment record -/
+def exHdr : List Nat := [128, 0, 82, 85, 78, 79, 110, 101, 46, 108, 105, 115, 0, 0] ++ List.replicate 44 32
+def exLay : TD.C05.Layout := ⟨1024, false, none, false, .le⟩
+def exRest : List (List Nat) := [[232, 0, 1, 2, 3]]
+
+set_option maxRecDepth 100000 in
+example (es : List TD.C06.Entry) (h : TD.C06.fileIndex (posRecs exLay (exHdr :: exRest) 0 2) = .ok es) :
+    identify lisTest (fun _ => false) (TD.C05.encode exLay (exHdr :: exRest)) = "LISt" :=
+  lis_identified_short _ exLay (by decide) exHdr exRest ⟨Or.inl (by simp [exHdr]), by decide, by decide, by decide⟩
+    (by intro h; cases h) (by decide) (by decide) (by decide +kernel) es h
+
+set_option maxRecDepth 100000 in
+/-- … and building the index of these two records succeeds; the concrete deep test evaluates to `LISt` -/
+example : (TD.C06.fileIndex (posRecs exLay (exHdr :: exRest) 0 2)).toOption.isSome = true ∧
+    lisTest (TD.C05.encode exLay (exHdr :: exRest)) = .list := by decide +kernel
 
 /-- a file header record (`RUNOne.lis`, NUL filler) is a `LisHeaderRec` -/
 example : LisHeaderRec ([128, 0, 82, 85, 78, 79, 110, 101, 46, 108, 105, 115, 0, 0] ++ List.replicate 44 32) :=
